@@ -362,7 +362,10 @@ fn scenario(seed: u64, k: u64, out: &Out) {
         let regs = pick_scripts(&mut rng, &w.chains[0], 2, len);
         set_scripts(&w, &regs, None);
     }
-    let mode = *rng.pick(&["honest", "honest", "invalid-answer", "mute-then-timeout", "disconnect-before-answer", "new-tip-only-answer", "late-answer", "late-answer", "session-closing"]);
+    let mode = *rng.pick(&["honest", "honest", "invalid-answer", "mute-then-timeout", "disconnect-before-answer", "new-tip-only-answer", "late-answer", "late-answer", "session-closing", "expire-then-leave"]);
+    // expire-then-leave: the serving peer never answers and leaves by itself AFTER its request is older than the message timeout but (often)
+    // BEFORE the next refresh tick has noticed it
+    let leave_at = rng.range(60, 68);
     // session-closing (fault injection at the network boundary): the session of the serving peer starts closing - every send to it fails
     // with an error and is lost - and the disconnected callback arrives 1..4 rounds later; the fetches it was (or seemed to be) given
     // must become eligible for another peer / a new session
@@ -403,7 +406,7 @@ fn scenario(seed: u64, k: u64, out: &Out) {
             mon.bad_peer = Some(0);
             mon.bad_mode = 0;
         }
-        "mute-then-timeout" => {
+        "mute-then-timeout" | "expire-then-leave" => {
             mon.bad_peer = Some(0);
             mon.bad_mode = 1;
         }
@@ -415,7 +418,7 @@ fn scenario(seed: u64, k: u64, out: &Out) {
         _ => {}
     }
     let mut violated = false;
-    let total_rounds = if mode == "mute-then-timeout" { 110 } else { R_FETCH + 15 };
+    let total_rounds = if mode == "mute-then-timeout" || mode == "expire-then-leave" { 110 } else { R_FETCH + 15 };
     for round in 0..total_rounds {
         if w.dead {
             break;
@@ -441,6 +444,13 @@ fn scenario(seed: u64, k: u64, out: &Out) {
             mon.bad_peer = None;
         }
         // the silent peer is dropped after the message timeout; its next session behaves
+        if mode == "expire-then-leave" && round == leave_at {
+            if w.peers[0].connected {
+                w.disconnect(0);
+                out.count("expired_request_peer_left_before_the_refresh_tick_noticed", 1);
+            }
+            mon.bad_peer = None;
+        }
         if round == 5 && mode == "mute-then-timeout" {
             mon.bad_peer = None;
         }
